@@ -185,9 +185,9 @@ impl Env {
         let tree = &self.world.tree;
         let src = package_sources(&self.world, &[(idx, p)]);
         let spec = reference::expect(&self.world, p, Sem::SPEC);
-        let m_a = reference::expect(&self.world, p, Sem { order_dependent: true, super_walks: false });
-        let m_b = reference::expect(&self.world, p, Sem { order_dependent: false, super_walks: true });
-        let m_ab = reference::expect(&self.world, p, Sem { order_dependent: true, super_walks: true });
+        let m_a = reference::expect(&self.world, p, Sem::defect(true, false));
+        let m_b = reference::expect(&self.world, p, Sem::defect(false, true));
+        let m_ab = reference::expect(&self.world, p, Sem::defect(true, true));
         let all_imports: Vec<&Vec<ImportStmt>> = vec![
             &p.top_before,
             &p.top_after,
@@ -286,6 +286,7 @@ struct ProbeRun<'a> {
     dirs: DiskDirs,
     item_src: Vec<String>,
     disk_every: usize,
+    batch_no: usize,
 }
 
 impl ProbeRun<'_> {
@@ -467,8 +468,16 @@ impl ProbeRun<'_> {
             );
             return;
         }
-        // on disk, every layout
-        for l in 0..self.env.layouts.len() {
+        // on disk, one layout per batch in turn (quick: every 4th batch; the
+        // lookup units go through every layout)
+        self.batch_no += 1;
+        let nl = self.env.layouts.len();
+        let on_disk = replay || self.batch_no % self.disk_every == 0;
+        let pick = (self.batch_no / self.disk_every) % nl;
+        for l in 0..nl {
+            if !(on_disk && (l == pick || replay)) {
+                continue;
+            }
             if !self.write_pkg(l, &src, cx) {
                 continue;
             }
@@ -515,14 +524,14 @@ fn nontrivial(world: &World, p: &Prog, e: Expect) -> bool {
 }
 
 fn run_probes(env: &Env, site: usize, kind: Kind, group: usize, cx: &mut Cx) {
-    let progs = enumerate::probes(&env.world, site, kind, group);
+    let progs = enumerate::probes(&env.world, site, kind, group, cx.cfg.tier);
     let expects: Vec<Expect> = progs.iter().map(|p| reference::expect(&env.world, p, Sem::SPEC)).collect();
     let base = disk::work_root().join(format!("u{}", cx.unit));
     let n_layouts = env.layouts.len();
     let item_src: Vec<String> = (0..env.world.tree.n()).map(|m| env.world.items_src(m)).collect();
     let disk_every = match cx.cfg.tier {
         Tier::Quick => 4,
-        Tier::Thorough => 1,
+        Tier::Thorough => 2,
     };
     let mut run = ProbeRun {
         env,
@@ -532,6 +541,7 @@ fn run_probes(env: &Env, site: usize, kind: Kind, group: usize, cx: &mut Cx) {
         dirs: DiskDirs { base: base.clone(), ready: vec![false; n_layouts] },
         item_src,
         disk_every,
+        batch_no: cx.unit,
     };
     let replay = cx.only();
     // group by shared top-level text
@@ -561,7 +571,7 @@ fn run_probes(env: &Env, site: usize, kind: Kind, group: usize, cx: &mut Cx) {
             }
         }
         if let Some(i) = run.expects.iter().position(|e| matches!(e, Expect::Tag(_))) {
-            if group > 0 && site > 0 {
+            if group > 0 && site > 0 && env.placement % 3 == 1 {
                 let c = env.probe_case(i, &run.progs[i], "memory", None);
                 cx.sample(json!({"files": c["files"], "call": c["call"], "reference": c["reference"]}));
             }
@@ -653,8 +663,11 @@ fn run_lookup(env: &Env, cx: &mut Cx) {
     let base = disk::work_root().join(format!("u{}", cx.unit));
     if cx.only().is_none() {
         cx.states((names.len() * (1 + env.layouts.len())) as u64);
-        cx.sample(json!({"files": files_json(tree, &src, Some(&env.layouts[env.layouts.len() - 1])),
-                          "get_function": names.iter().map(|n| n.0.clone()).collect::<Vec<_>>()}));
+        if tree.n() >= 3 && env.placement == 5 {
+            cx.sample(json!({"what": "get_function of every listed path, in memory and in every disk layout",
+                              "files": files_json(tree, &src, Some(&env.layouts[env.layouts.len() - 1])),
+                              "paths": names.iter().filter(|n| n.2 == Item::F).map(|n| n.0.clone()).collect::<Vec<_>>()}));
+        }
     }
     // origin 0 = memory, 1.. = disk layouts
     for o in 0..=env.layouts.len() {
@@ -812,7 +825,7 @@ impl Check for C13 {
                 lookup_case(&env, if o == 0 { "memory" } else { "disk" }, layout, name, &src)
             }
             Unit::Probes { site, kind, group, .. } => {
-                let progs = enumerate::probes(&env.world, site, kind, group);
+                let progs = enumerate::probes(&env.world, site, kind, group, cfg.tier);
                 if sub & BATCH_BIT != 0 {
                     let first = (sub & (BATCH_BIT - 1)) as usize;
                     let Some(p0) = progs.get(first) else { return json!({"what": "batch", "unit": unit}) };
@@ -888,7 +901,9 @@ impl Check for C13 {
                 "reference_forms_without_import": 1 + enumerate::PFORMS.len(),
                 "import_path_forms": enumerate::PFORMS[..enumerate::n_pforms(cfg.tier)].iter().map(|p| p.join(".")).collect::<Vec<_>>(),
                 "import_kinds": ["single", "list", "module-then-path", "chain", "chain-reversed"],
-                "import_placements": ["top-before", "top-after", "block-before", "block-after", "outer-before", "outer-after", "sibling-arm", "parent-module-top"],
+                "import_placements": ["top-before", "top-after", "block-before", "block-after", "outer-before", "outer-after", "sibling-arm", "parent-module-top (use unchanged)", "parent-module-top (use via super.)", "parent-module-top (use via pkg...)"],
+                "import_forms_with_shadows": enumerate::FULL_PFORMS,
+                "import_shadows": enumerate::import_shadows(cfg.tier, 1).iter().map(|s| format!("{s:?}")).collect::<Vec<_>>(),
                 "shadows": ["none", "let-first-seg", "let-first-seg-outer", "param-first-seg", "let-last-seg", "let-after-use", "pattern-first-seg"],
                 "disk_layouts": "every file/mod.roto choice for leaf modules; batches in all layouts; single-probe packages in one layout each (quick: every 4th probe)",
                 "get_function_paths": LOOKUP_PATHS,
@@ -897,7 +912,37 @@ impl Check for C13 {
             transitions_are: "compile-and-call executions (in memory and on disk) and get_function calls".into(),
         }
     }
-    fn preflight(&self, _cfg: &Cfg) -> Result<(), String> {
+    /// development aid: C13_DUMP=<file> writes one line per violation
+    fn finish(&self, _cfg: &Cfg, agg: &mut vcore::Aggregate) {
+        if let Ok(path) = std::env::var("C13_DUMP") {
+            let mut out = String::new();
+            for v in &agg.violations {
+                let c = &v.case;
+                out += &format!(
+                    "{}\t{}\t{}\tsite={} nest={} kind={} use={} imports={} locals={}\texp={} obs={} models={}\n",
+                    v.class, v.unit, v.sub, c["site"], c["nest"], c["kind"], c["use"], c["imports"], c["locals"],
+                    v.expected, v.observed, c["defect_models"]
+                );
+            }
+            let _ = std::fs::write(path, out);
+        }
+    }
+    fn preflight(&self, cfg: &Cfg) -> Result<(), String> {
+        if std::env::var("C13_COUNT").is_ok() {
+            // development aid: size of the tier without running it
+            let mut n = 0usize;
+            let mut per_tree: BTreeMap<usize, usize> = BTreeMap::new();
+            let table = unit_table(cfg.tier);
+            for u in &table {
+                if let Unit::Probes { tree, placement, site, kind, group } = u {
+                    let env = Env::new(*tree, *placement, false);
+                    let k = enumerate::probes(&env.world, *site, *kind, *group, cfg.tier).len();
+                    n += k;
+                    *per_tree.entry(*tree).or_default() += k;
+                }
+            }
+            eprintln!("units {} probes {} per tree {:?}", table.len(), n, per_tree);
+        }
         handtable::check()
     }
     fn case_timeout_s(&self, cfg: &Cfg) -> f64 {
